@@ -294,7 +294,7 @@ type taxRow struct {
 	taxes tax.Set
 }
 
-func (r *taxRow) GetTaxes() tax.Set     { return r.taxes }
+func (r *taxRow) GetTaxes() tax.Set    { return r.taxes }
 func (r *taxRow) GetTotal() num.Amount { return r.total }
 
 func pct(s string) *num.Percentage {
@@ -804,7 +804,7 @@ func c20payment(c *Ctx, rng *rand.Rand) {
 	var out []byte
 	var err error
 	if p, _ := Safely(func() {
-		var env interface{ }
+		var env interface{}
 		e, e2 := gx.EnvelopDoc(in)
 		err = e2
 		env = e
